@@ -92,7 +92,23 @@ func idxWitnesses() []*Program {
 		rows = append(rows, fmt.Sprintf("(%d,5,NULL,1)", 2000+i), fmt.Sprintf("(%d,NULL,'x%d',%d)", 3000+i, i%7, 100+i))
 		rows2 = append(rows2, fmt.Sprintf("(%d,6,NULL,1)", 4000+i), fmt.Sprintf("(%d,NULL,NULL,%d)", 5000+i, 500+i))
 	}
-	return []*Program{{Mode: "idx", NSess: 2,
+	dropCol := func(ixs []IdxDef, drop string) *Program {
+		// the RIGHT side really drops a column stored BEFORE the indexed columns and deletes a row; the left side
+		// makes an unrelated edit; the indexes keep their tags, so the merge maintains them incrementally
+		return &Program{Mode: "idx", NSess: 2, Schema: &SchemaCase{Initial: ixs}, Stmts: []XStmt{
+			{SQL: "INSERT INTO t VALUES (1,1,'a',1),(2,2,'b',2),(3,3,'c',3),(4,4,'d',4)"},
+			{SQL: "CALL dolt_commit('-Am','rows')"},
+			{SQL: "CALL dolt_checkout('br')"}, {SQL: "CALL dolt_merge('main')"},
+			{SQL: "ALTER TABLE t DROP COLUMN " + drop}, {SQL: "DELETE FROM t WHERE pk=2"}, {SQL: "UPDATE t SET c2=9 WHERE pk=4"},
+			{SQL: "CALL dolt_commit('-Am','b')"},
+			{SQL: "CALL dolt_checkout('main')"}, {SQL: "UPDATE t SET c2=7 WHERE pk=3"}, {SQL: "CALL dolt_commit('-Am','m')"},
+			{SQL: "CALL dolt_merge('br')"}, {SQL: "CALL dolt_commit('-Am','merged')"},
+		}}
+	}
+	return []*Program{
+		dropCol([]IdxDef{{Name: "i12", Cols: []int{1, 2}, Pfx: []int{0, 0}}, {Name: "u2", Cols: []int{2}, Pfx: []int{0}, Unique: true}}, "c0"),
+		dropCol([]IdxDef{{Name: "i2", Cols: []int{2}, Pfx: []int{0}}}, "c1"),
+		{Mode: "idx", NSess: 2,
 		Schema: &SchemaCase{Initial: []IdxDef{{Name: "u01", Cols: []int{0, 1}, Pfx: []int{0, 0}, Unique: true}, {Name: "u2", Cols: []int{2}, Pfx: []int{0}, Unique: true}}},
 		Stmts: []XStmt{
 			{SQL: "INSERT INTO t VALUES (1000,9,'seed',1)"},
